@@ -23,37 +23,75 @@ from symx.runner import Ob, run_property, WORK
 # ------------------------------------------------------------------------------------------
 # (a) framing
 # ------------------------------------------------------------------------------------------
+class _PatProxy:
+    """stands in for a compiled pattern held by syne_tune.report; records that it was used"""
+
+    def __init__(self, pat, log):
+        self._pat, self._log = pat, log
+
+    def __getattr__(self, name):
+        real = getattr(self._pat, name)
+        if name in ("findall", "finditer", "search", "match", "fullmatch", "sub", "split"):
+            def rec(*a, **k):
+                self._log.append((self._pat.pattern, int(self._pat.flags & ~re.UNICODE)))
+                return real(*a, **k)
+            return rec
+        return real
+
+
+class _ReProxy:
+    """stands in for the ``re`` module inside syne_tune.report while retrieve() runs on a probe"""
+
+    def __init__(self, log):
+        self._log = log
+
+    def __getattr__(self, name):
+        real = getattr(re, name)
+        if name == "compile":
+            return lambda pattern, flags=0: _PatProxy(real(pattern, flags), self._log)
+        if name in ("findall", "finditer", "search", "match", "fullmatch", "sub", "split"):
+            def rec(pattern, *a, **k):
+                if isinstance(pattern, _PatProxy):
+                    return getattr(pattern, name)(*a, **k)
+                flags = k.get("flags", 0)
+                extra = a[{"sub": 3, "split": 2}.get(name, 1):]
+                if not flags and extra:
+                    flags = extra[0]
+                comp = pattern if isinstance(pattern, re.Pattern) else re.compile(pattern, flags)
+                self._log.append((comp.pattern, int(comp.flags & ~re.UNICODE)))
+                return real(pattern, *a, **k)
+            return rec
+        return real
+
+
 def extract_regex():
-    """evaluate the `regex = ...` expression of retrieve() with the repo's own constants"""
+    """the regular expression (and flags) retrieve() REALLY applies: retrieve() is run on a probe line while the ``re`` module
+    seen by syne_tune.report and every compiled pattern among its globals are replaced by recording proxies (independent of
+    how the source spells the pattern: literal, local names, module constant, pre-compiled)"""
     import syne_tune.report as R
     import syne_tune.constants as K
-    src = open(R.__file__).read()
-    tree = ast.parse(src)
-    for node in ast.walk(tree):
-        if isinstance(node, ast.FunctionDef) and node.name == "retrieve":
-            # local names the pattern is built from (e.g. ``tag = ...``) are folded in source order
-            env = {"ST_SAGEMAKER_METRIC_TAG": K.ST_SAGEMAKER_METRIC_TAG, "re": re}
-            pattern = None
-            for st in ast.walk(node):
-                if isinstance(st, ast.Assign) and len(st.targets) == 1 and isinstance(st.targets[0], ast.Name):
-                    try:
-                        val = eval(compile(ast.Expression(st.value), "<regex>", "eval"), dict(env))
-                    except Exception:
-                        continue
-                    if st.targets[0].id == "regex":
-                        pattern = val
-                        break
-                    if isinstance(val, (str, int)):
-                        env[st.targets[0].id] = val
-            if pattern is not None:
-                    flags = 0
-                    for call in ast.walk(node):
-                        if isinstance(call, ast.Call) and getattr(call.func, "attr", None) == "findall":
-                            fl = [k.value for k in call.keywords if k.arg == "flags"] + list(call.args[2:3])
-                            if fl:
-                                flags = eval(compile(ast.Expression(fl[0]), "<flags>", "eval"), {"re": re})
-                    return pattern, K.ST_SAGEMAKER_METRIC_TAG, int(flags)
-    raise RuntimeError("regex assignment not found in retrieve()")
+    log = []
+    saved = {}
+    for name, val in list(vars(R).items()):
+        if isinstance(val, re.Pattern):
+            saved[name] = val
+            setattr(R, name, _PatProxy(val, log))
+    saved_re = getattr(R, "re", None)
+    R.re = _ReProxy(log)
+    try:
+        R.retrieve(["[%s]: {\"probe\": 1}" % K.ST_SAGEMAKER_METRIC_TAG])
+    finally:
+        for name, val in saved.items():
+            setattr(R, name, val)
+        if saved_re is not None:
+            R.re = saved_re
+        else:
+            del R.re
+    used = sorted(set(log))
+    if len(used) != 1:
+        raise RuntimeError("retrieve() applies %d regular expressions to its input, expected exactly one: %r" % (len(used), used))
+    pattern, flags = used[0]
+    return pattern, K.ST_SAGEMAKER_METRIC_TAG, int(flags)
 
 
 def parse_pattern(pattern, flags=0):
